@@ -9,6 +9,7 @@ import (
 	"os/exec"
 	"runtime"
 	"runtime/debug"
+	"strconv"
 	"sync"
 
 	"github.com/ChrisTrenkamp/xsel/node"
@@ -111,6 +112,39 @@ func closeTraceOut() {
 		traceOut.Flush()
 		traceFile.Close()
 	}
+}
+
+// parseConc: how many goroutines read documents at once in the recorders (VERIF_PARSE_CONC, default 1)
+func parseConc() int {
+	if v, err := strconv.Atoi(os.Getenv("VERIF_PARSE_CONC")); err == nil && v > 1 {
+		return v
+	}
+	return 1
+}
+
+func parallelDo(n, k int, f func(i int)) {
+	if k <= 1 {
+		for i := 0; i < n; i++ {
+			f(i)
+		}
+		return
+	}
+	var wg sync.WaitGroup
+	ch := make(chan int, 64)
+	for w := 0; w < k; w++ {
+		wg.Add(1)
+		go func() {
+			defer wg.Done()
+			for i := range ch {
+				f(i)
+			}
+		}()
+	}
+	for i := 0; i < n; i++ {
+		ch <- i
+	}
+	close(ch)
+	wg.Wait()
 }
 
 func writeTrace(v any) {
